@@ -11,7 +11,7 @@ use crate::corpus::{Corpus, Sibling};
 use crate::report::Known;
 use crate::Paths;
 use serde_json::{json, Value};
-use simcore::{write_json, Rng};
+use simcore::{stable_hash, write_json, Rng};
 use std::path::{Path, PathBuf};
 use std::process::Command;
 use std::time::Instant;
@@ -89,8 +89,28 @@ fn write_gen(paths: &Paths, gen: &Path, sources: &[Source], rng: &mut Rng, hash_
     let mut items: Vec<String> = Vec::new();
     for s in sources.iter().filter(|s| mods.contains(&s.module)) {
         items.push(format!("#[pdl_derive::pdl_inline(r####\"{}\"####)]\npub mod drva_{} {{}}\n", s.text, s.module));
-        items.push(format!("#[pdl_derive::pdl_inline(r####\"{}\"####)]\npub mod drvb_{} {{}}\n", s.text, s.module));
-        items.push(format!("#[pdl_derive::pdl(\"{}\")]\npub mod drvf_{} {{}}\n", gen.join(format!("{}.pdl", s.module)).display(), s.module));
+        // the second inline module has a body of its own (the documented place for user code): what the
+        // host crate has in scope around the module (sim/tierd_mods/src/lib.rs: look-alike helper traits)
+        // must not reach the generated code
+        items.push(format!("#[pdl_derive::pdl_inline(r####\"{}\"####)]\npub mod drvb_{} {{\n    pub const VERIF_USER_ITEM: u8 = 1;\n    pub fn verif_user_fn(b: &[u8]) -> usize {{ b.len() }}\n}}\n", s.text, s.module));
+        // the file form names its source either directly or (a function of module name and hash seed, both
+        // recorded) through a symbolic link followed by `..`: `<gen>/decoy/lnk` -> `<gen>/sub`, so that
+        // `<gen>/decoy/lnk/../m.pdl` IS `<gen>/m.pdl` for the operating system and for pdlc, while
+        // `<gen>/decoy/m.pdl` (what a textual folding of `lnk/..` would name) holds another description
+        let direct = gen.join(format!("{}.pdl", s.module));
+        let file_path = if (stable_hash(s.module.as_str()) ^ hash_seed) % 2 == 0 {
+            direct
+        } else {
+            let decoy = gen.join("decoy");
+            std::fs::create_dir_all(&decoy).map_err(|e| e.to_string())?;
+            std::fs::create_dir_all(gen.join("sub")).map_err(|e| e.to_string())?;
+            if !decoy.join("lnk").exists() {
+                std::os::unix::fs::symlink(gen.join("sub"), decoy.join("lnk")).map_err(|e| e.to_string())?;
+            }
+            std::fs::write(decoy.join(format!("{}.pdl", s.module)), Sibling::FlipEndian.apply(&s.text)).map_err(|e| e.to_string())?;
+            decoy.join("lnk").join("..").join(format!("{}.pdl", s.module))
+        };
+        items.push(format!("#[pdl_derive::pdl(\"{}\")]\npub mod drvf_{} {{}}\n", file_path.display(), s.module));
     }
     rng.shuffle(&mut items);
     let mut text = format!("// tier D round; hash seed of the rustc process: {hash_seed}\n");
@@ -102,8 +122,30 @@ fn write_gen(paths: &Paths, gen: &Path, sources: &[Source], rng: &mut Rng, hash_
 }
 
 fn build_and_run(paths: &Paths, sim_dir: &Path, gen: &Path, mods: &[String], hash_seed: u64, seed: u64, runs: u64, replay: Option<&Path>, extra: &[String]) -> Result<Value, String> {
+    build_and_run_v(paths, sim_dir, gen, mods, hash_seed, seed, runs, replay, extra, "drva_,drvb_,drvf_")
+}
+
+/// The first `error` lines of a failed build, without paths (they differ between scratch copies).
+fn error_excerpt(e: &str) -> String {
+    let mut v: Vec<String> = Vec::new();
+    for l in e.lines() {
+        let t = l.trim();
+        if t.starts_with("error[") || (t.starts_with("error:") && !t.contains("could not compile") && !t.contains("aborting due to")) {
+            let t = t.replace("tierd_mods::", "");
+            if !v.contains(&t) {
+                v.push(t);
+            }
+        }
+        if v.len() >= 3 {
+            break;
+        }
+    }
+    v.join(" | ")
+}
+
+fn build_and_run_v(paths: &Paths, sim_dir: &Path, gen: &Path, mods: &[String], hash_seed: u64, seed: u64, runs: u64, replay: Option<&Path>, extra: &[String], variants: &str) -> Result<Value, String> {
     let target = paths.build.join("sim-target");
-    let o = Command::new(target.join("release/bufgen")).arg(gen).args(["--variants", "drva_,drvb_,drvf_"]).args(mods).output().map_err(|e| format!("bufgen: {e}"))?;
+    let o = Command::new(target.join("release/bufgen")).arg(gen).args(["--variants", variants]).args(mods).output().map_err(|e| format!("bufgen: {e}"))?;
     if !o.status.success() {
         return Err(format!("bufgen failed: {}", String::from_utf8_lossy(&o.stderr)));
     }
@@ -167,9 +209,26 @@ pub fn run_tier(paths: &Paths, c: &Corpus, seed: u64, rounds: u64, sources_per_r
         let res = match build_and_run(paths, &sim_dir(paths), &gen, &mods, hash_seed, seed, runs_per_family, None, &[]) {
             Ok(v) => v,
             Err(e) => {
-                // generated code that does not compile is C10's business, not a C11 verdict:
-                // retry the round source by source would be costly; record and move on
+                // generated code that does not compile is C10's business, not a C11 verdict — unless the very
+                // same workload code compiles against pdlc's text alone: then the modules the macros generate
+                // do not offer what pdlc's output offers for the same source (fields, methods, types)
                 build_failures.push(format!("round {round}: {}", e.lines().take(6).collect::<Vec<_>>().join(" | ")));
+                if e.contains("does not build") && build_and_run_v(paths, &sim_dir(paths), &gen, &mods, hash_seed, seed, 1, None, &[], "").is_ok() {
+                    let detail = format!("the workload compiles against pdlc's output but not against the modules #[pdl]/#[pdl_inline] generate from the same sources: {}", error_excerpt(&e));
+                    let sig = json!({"tier": "D", "invariant": "I6", "entry": Value::Null, "backend": "derive", "detail": detail});
+                    if known.matches(&sig).is_none() && out.violations.len() < 10 {
+                        let path = paths.out.join("replays").join(format!("C11-{seed}-D{round}-build.json"));
+                        let doc = json!({
+                            "property": "C11", "tier": "D", "seed": seed, "run": round, "history": "build_only",
+                            "hash_seed_of_rustc": hash_seed.to_string(),
+                            "sources": sources.iter().map(|s| json!({"module": s.module, "origin": s.origin, "text": s.text})).collect::<Vec<_>>(),
+                            "violation": {"invariant": "I6", "detail": detail},
+                            "replay": format!("bin/check C11 --replay {}", path.display()),
+                        });
+                        write_json(&path, &doc).map_err(|e| e.to_string())?;
+                        out.violations.push((sig, path));
+                    }
+                }
                 continue;
             }
         };
@@ -276,6 +335,26 @@ pub fn replay(paths: &Paths, v: &Value, file: &Path) -> i32 {
             return 0;
         }
     };
+    if v["history"] == "build_only" {
+        let with = build_and_run(paths, &sim_dir(paths), &gen, &mods, hash_seed, 0, 1, None, &[]);
+        let without = build_and_run_v(paths, &sim_dir(paths), &gen, &mods, hash_seed, 0, 1, None, &[], "");
+        let _ = std::fs::remove_dir_all(&gen);
+        return match (with, without) {
+            (Err(e), Ok(_)) if e.contains("does not build") => {
+                println!("reproduced: invariant I6 — the workload compiles against pdlc's output but not against the macro-generated modules: {}", error_excerpt(&e));
+                println!("VIOLATION property=C11 replay={}", file.display());
+                1
+            }
+            (Ok(_), _) => {
+                println!("not reproduced on the current tree");
+                0
+            }
+            (Err(e), _) => {
+                eprintln!("envsim: harness error in tier D replay: {e}");
+                2
+            }
+        };
+    }
     if v["history"] == "edit_and_rebuild" {
         // first build with the original text, then edit only the .pdl file and print the new CLI code
         if let Err(e) = build_and_run(paths, &sim_dir(paths), &gen, &mods, hash_seed, 0, 1, None, &[]) {
